@@ -67,3 +67,209 @@ def _(c):
                hp(S1, "AppNamespace._mailboxes") == hp(S0, "AppNamespace._mailboxes"))
     yield "one_namespace_per_app", If(old != 0, same, fresh_obj), ["C02", "C06", "C11"]
     yield "apps_wf", apps_wf(S1), ["C02"]
+
+
+# ---------------------------------------------------------------- get_all_apps
+c = contract("server.Server.get_all_apps", cls="Server", params={}, result="set:str", modifies=[],
+             tags=["C13", "C10", "C17"])
+
+
+def app_has_rows(S, y):
+    return Or(S.t(NP).exists(lambda r: r.app_id == y), S.t(MB).exists(lambda r: r.app_id == y),
+              S.t(MSG).exists(lambda r: r.app_id == y))
+
+
+@c.ensures
+def _(c):
+    from .appnamespace import members
+    mem = members(c.result)
+    # every app that owns a nameplate, a mailbox or a message is swept (C13)
+    yield "every_app_with_rows", FA([Str], lambda y: mem(y) == app_has_rows(c.pre, y)), ["C13"]
+
+
+# ---------------------------------------------------------------- prune_all_apps
+from . import heapinv as HI                                 # noqa: E402
+from .appnamespace import PRUNE_MOD, cardarr_axiom          # noqa: E402
+
+PAA_MOD = PRUNE_MOD + ["heap." + APPS, "alloc"] + APP_FIELDS
+c = contract("server.Server.prune_all_apps", cls="Server", params={"now": "real", "old": "real"},
+             modifies=PAA_MOD, tags=["C02", "C06", "C09", "C10", "C12", "C13", "C15", "C17"])
+I.add_preserves(c)
+
+
+def GH3(S):
+    """H3 for every alive bound connection: its namespace is the one registered for its app (F1)"""
+    capp = S.heap["WebSocketServer._app"]
+    return FA([INT], lambda cn: Implies(And(S.heap["WebSocketServer.alive"][cn], capp[cn] != 0),
+                                        hp(S, APPS)[H.SERVER][hp(S, "AppNamespace._app_id")[capp[cn]]] == capp[cn]),
+              pats=lambda cn: [capp[cn]])
+
+
+def sweep_pre(c):
+    S = c.pre
+    yield "the_server", c.self_ref == H.SERVER
+    yield "clean", I.Clean(S)
+    yield "apps_wf", apps_wf(S)
+    yield "GH4", HI.GH4(S)
+    yield "GH5", HI.GH5(S)
+    yield "old_before_now", c.a.t("old") < c.a.t("now")
+
+
+c.requires(sweep_pre)
+
+
+def sub_row(S, T, r):
+    """some alive connection is subscribed to the mailbox of row r of mailboxes-snapshot T"""
+    cm = S.heap["WebSocketServer._mailbox"]
+    return EX([INT], lambda cn: And(HI.subscribed(S, cn, cm[cn]),
+                                    hp(S, "Mailbox._mailbox_id")[cm[cn]] == T.cols["id"][r],
+                                    hp(S, "Mailbox._app_id")[cm[cn]] == T.cols["app_id"][r]))
+
+
+def protected_kept(E, S, old, scope=lambda r: BoolVal(True)):
+    """C12: a mailbox that saw activity after `old`, or has a subscriber, survives with its side rows,
+    its messages, the nameplate pointing at it and that nameplate's side rows"""
+    mbE, mbS = E.t(MB), S.t(MB)
+    prot = lambda r: And(mbE.live[r], scope(r), Or(mbE.cols["updated"][r] > old, sub_row(E, mbE, r)))
+    protid = lambda y: EX([INT], lambda r: And(prot(r), mbE.cols["id"][r] == y))
+    from pvc.state import same_row
+    yield "mailbox", FA([INT], lambda r: Implies(prot(r), And(
+        mbS.live[r], mbS.cols["id"][r] == mbE.cols["id"][r], mbS.cols["app_id"][r] == mbE.cols["app_id"][r],
+        mbS.cols["for_nameplate"][r] == mbE.cols["for_nameplate"][r], Or(mbS.cols["updated"][r] > old, sub_row(S, mbS, r)))),
+        pats=lambda r: [mbS.live[r], mbE.live[r]])
+    for key, col in ((MS, "mailbox_id"), (MSG, "mailbox_id"), (NP, "mailbox_id")):
+        tE, tS = E.t(key), S.t(key)
+        yield key, FA([INT], lambda r, tE=tE, tS=tS, col=col: Implies(And(tE.live[r], protid(tE.cols[col][r])),
+                                                                     And(tS.live[r], same_row(tE, tS, r))),
+                      pats=lambda r, tE=tE, tS=tS: [tS.live[r], tE.live[r]])
+    nsE, nsS, npE = E.t(NS), S.t(NS), E.t(NP)
+    yield NS, FA([INT], lambda r: Implies(And(nsE.live[r], npE.live[nsE.cols["nameplates_id"][r]],
+                                              protid(npE.cols["mailbox_id"][nsE.cols["nameplates_id"][r]])),
+                                          And(nsS.live[r], same_row(nsE, nsS, r))),
+                 pats=lambda r: [nsS.live[r], nsE.live[r]])
+
+
+def in_use_namespaces_stay(E, S):
+    """a registered namespace that holds Mailbox objects is never dropped by a sweep"""
+    aE, aS = hp(E, APPS)[H.SERVER], hp(S, APPS)[H.SERVER]
+    mb = hp(E, "AppNamespace._mailboxes")
+    return FA([Str], lambda a: Implies(And(aE[a] != 0, EX([Str], lambda k: mb[aE[a]][k] != 0)), aS[a] == aE[a]),
+              pats=lambda a: [aS[a], aE[a]])
+
+
+def heap_quiet(E, S):
+    """a sweep does not touch connections, Mailbox objects, listener sets, or the registries of
+    the namespaces that existed before; namespaces it creates have empty registries"""
+    cs = []
+    for f in ("WebSocketServer._app", "WebSocketServer._mailbox", "WebSocketServer._listening", "WebSocketServer.alive",
+              "Mailbox._listeners", "Mailbox._app", "Mailbox._app_id", "Mailbox._mailbox_id"):
+        cs.append(S.heap[f] == E.heap[f])
+    mE, mS = hp(E, "AppNamespace._mailboxes"), hp(S, "AppNamespace._mailboxes")
+    aE, aS = hp(E, "AppNamespace._app_id"), hp(S, "AppNamespace._app_id")
+    cs.append(FA([INT], lambda A: Implies(E.alloc[A], And(S.alloc[A], mS[A] == mE[A], aS[A] == aE[A])),
+                 pats=lambda A: [S.alloc[A], E.alloc[A]]))
+    cs.append(FA([INT], lambda A: Implies(And(S.alloc[A], Not(E.alloc[A]), H.cls_of(A) == S_("AppNamespace")),
+                                          mS[A] == K(Str, IntVal(0))), pats=lambda A: [S.alloc[A]]))
+    return And(*cs)
+
+
+from pvc.zs import S as S_      # noqa: E402  (string literal constructor; `S` is used for states here)
+
+
+@c.ensures
+def _(c):
+    S0, S1 = c.pre, c.post
+    old = c.a.t("old")
+    for n, t in protected_kept(S0, S1, old):
+        yield "protected_kept." + n, t, ["C12", "C06"]
+    mb1 = S1.t(MB)
+    # C13: whatever is left was active after `old` or is subscribed (and was touched): nothing idle survives
+    yield "all_remaining_fresh", mb1.forall(lambda r: r.updated > old), ["C13"]
+    yield "committed", I.Clean(S1), ["C09"]
+    yield "preserves.apps_wf", apps_wf(S1), ["C02", "C11"]
+    yield "preserves.GH4", HI.GH4(S1), ["C02", "C12"]
+    yield "preserves.GH5", HI.GH5(S1), ["C02", "C12"]
+    yield "heap_quiet", heap_quiet(S0, S1), ["C02", "C11", "C12"]
+    yield "in_use_namespaces_stay", in_use_namespaces_stay(S0, S1), ["C02", "C12", "C15"]
+    # F1: a namespace is dropped although connections are still bound to it
+    yield "preserves.GH3", Implies(GH3(S0), GH3(S1)), ["C02", "C12", "C15", "C11"]
+
+
+@c.raises("AnyException", "transient_failure", tags=["C13"], iff=False)
+def _(c):
+    # A5/C13: a database access of the sweep may fail with any exception, at any point; nothing is
+    # promised about the state it leaves (the caller must cope)
+    yield "when", BoolVal(True)
+
+
+@c.loop(0, modifies=PAA_MOD, tags=["C12", "C13", "C10"])
+def _(c, L):
+    E, S = L.entry, c.post
+    old = c.a.t("old")
+    for n in I.DB_INV:
+        yield "inv." + n, I.NAMED[n](S)
+    yield "clean", I.Clean(S)
+    yield "apps_wf", apps_wf(S)
+    yield "GH4", HI.GH4(S)
+    yield "GH5", HI.GH5(S)
+    yield "heap_quiet", heap_quiet(E, S)
+    yield "in_use_namespaces_stay", in_use_namespaces_stay(E, S)
+    for n, t in protected_kept(E, S, old):
+        yield "protected_kept." + n, t
+    mbS = S.t(MB)
+    yield "done_apps_fresh", mbS.forall(lambda r: Implies(L.done(r.app_id), r.updated > old))
+    # rows of the apps not yet processed are as at loop entry (prune only touches its own app)
+    mbE = E.t(MB)
+    yield "pending_untouched", FA([INT], lambda r: Implies(And(mbE.live[r], Not(L.done(mbE.cols["app_id"][r]))),
+                                                           And(mbS.live[r], mbS.cols["app_id"][r] == mbE.cols["app_id"][r])),
+                                  pats=lambda r: [mbS.live[r], mbE.live[r]])
+    yield "no_new_rows", FA([INT], lambda r: Implies(mbS.live[r], And(mbE.live[r], mbS.cols["app_id"][r] == mbE.cols["app_id"][r])),
+                            pats=lambda r: [mbS.live[r]])
+
+
+# ---------------------------------------------------------------- dump_stats
+from pvc.builtins import dictsum                            # noqa: E402
+from .appnamespace import cardarr, listener_total, UCUR   # noqa: E402
+apptot = Function("apptot", ArraySort(INT, ArraySort(Str, INT)), ArraySort(INT, ArraySort(INT, BOOL)), ArraySort(INT, INT))
+
+
+def apptot_axiom(S=None):
+    """apptot(mailboxes, listeners)[A] = sum over A's registered Mailbox objects of |listeners| (spec definition)"""
+    return FA([ArraySort(INT, ArraySort(Str, INT)), ArraySort(INT, ArraySort(INT, BOOL)), INT],
+              lambda mb, ls, A: apptot(mb, ls)[A] == dictsum(cardarr(ls), mb[A]),
+              pats=lambda mb, ls, A: [apptot(mb, ls)[A]])
+
+
+import pvc.zs as _zs     # noqa: E402
+_zs.EXTRA_AXIOMS.append(apptot_axiom())
+
+
+def server_total(S):
+    """sum over the registered namespaces of their listener totals"""
+    return dictsum(apptot(hp(S, "AppNamespace._mailboxes"), hp(S, "Mailbox._listeners")), hp(S, APPS)[H.SERVER])
+
+
+c = contract("server.Server.dump_stats", cls="Server", params={"now": "real", "rebooted": "real"},
+             modifies=[UCUR, "in_tx.us"], tags=["C15", "C09", "C13", "C17", "C18"])
+
+
+@c.requires
+def _(c):
+    yield "the_server", c.self_ref == H.SERVER
+
+
+@c.ensures
+def _(c):
+    S0, S1 = c.pre, c.post
+    t1 = S1.t(UCUR)
+    row_ok = lambda r: And(t1.cols["rebooted"][r] == c.a.t("rebooted"), t1.cols["updated"][r] == c.a.t("now"),
+                           t1.nulls["blur_time"][r] == H.CFG_BLUR_NONE,
+                           Implies(Not(H.CFG_BLUR_NONE), t1.cols["blur_time"][r] == H.CFG_BLUR),
+                           t1.cols["connections_websocket"][r] == z3.ToReal(server_total(S0)))
+    # exactly one status row, carrying the listener total (C15; that this is the number of subscribed
+    # connections is the counting lemma C15.count, a paper step over H3-H5)
+    yield "one_status_row", If(H.CFG_USAGE,
+                               EX([INT], lambda r2: And(t1.live[r2], row_ok(r2),
+                                                        FA([INT], lambda r: Implies(r != r2, Not(t1.live[r]))))),
+                               tbl_eq(S0.t(UCUR), t1)), ["C15", "C18"]
+    yield "committed", If(H.CFG_USAGE, Not(S1.in_tx["us"]), S1.in_tx["us"] == S0.in_tx["us"]), ["C09"]
